@@ -11,7 +11,7 @@ module globals of falcon.routing.static.
 * Observation: a process-wide audit hook records every `open` event while a
   per-run flag is set (hooks cannot be removed, so it is installed once).
   Import artefacts (paths below sys.prefix / sys.base_prefix / the stdlib /
-  `<mirror>/falcon/`) do not count; everything else counts, in particular
+  `<mirror>/falcon/` / the harness' own source tree) do not count; everything else counts, in particular
   everything below the DiskSim root.
 * Faults: `IoProxy` / `OsProxy` delegate everything to the real modules, but
   `open` / `fstat` may raise OSError and the file objects returned by `open`
@@ -232,6 +232,9 @@ def _artefact_roots():
     m = mirror.directory()
     if m:
         roots.add(_os.path.join(_os.path.realpath(m), 'falcon') + '/')
+    # the harness' own sources: linecache reads them when Falcon's default
+    # error handler formats a traceback that has simulator frames in it
+    roots.add(_os.path.dirname(_os.path.dirname(_os.path.realpath(__file__))).rstrip('/') + '/')
     return tuple(sorted(roots))
 
 
